@@ -39,7 +39,7 @@ def generate(tier, seed):
         for f in ["string<", "string=", "string>"]:
             reqs += ["(%s %s \"a\")" % (f, bad), "(%s \"a\" %s)" % (f, bad), "(%s \"a\")" % f, "(%s)" % f, "(%s \"a\" \"b\" \"c\")" % f]
     dirs = ["%s", "%S", "%d", "%f", "%%", "%x", "%", "a", " ", "é", "\\n", "%5d", "\\\""]
-    args = ["1", "-7", "2.5", "100.25", '"str"', '"q\\"t"', '"a\\\\b"', '"x\\\\"', "'(\"a\\\\b\" \"c\")", "'(\"q\\\"\" . \"\\\\\")", "'sym", "'(1 \"x\" b)", "nil", "t", ":k", "1.0", "3.75", "'(a . b)", "0.1"]
+    args = ["1", "-7", "2.5", "100.25", '"str"', '"q\\"t"', r'"a\\b"', r'"x\\"', r"""'("a\\b" "c")""", r"""'("q\"" . "\\")""", "'sym", "'(1 \"x\" b)", "nil", "t", ":k", "1.0", "3.75", "'(a . b)", "0.1"]
     for _ in range(2500 if tier == "quick" else 60000):
         fs = "".join(rng.choice(dirs) for _ in range(rng.randint(0, 5)))
         nd = sum(1 for d in ["%s", "%S", "%d", "%f"] for _ in range(fs.count(d)))
@@ -59,7 +59,7 @@ def generate(tier, seed):
     lines = []
     for k, r in enumerate(reqs):
         if k % 25 == 0: lines.append("NEW")
-        lines.append("EVAL " + r)
+        lines.append("EVAL " + C.esc(r))       # the text may contain backslashes and newlines: protocol-escape it
     return {"lines": lines, "distribution": {"requests": len(reqs)}}
 
 def count_nontrivial(lines, impl, model):
